@@ -836,18 +836,22 @@ Qed.
 
 (* over every history of the manager from the start: producible commands of the tasks, accepted incoming connections (spawn_peer_listener, repaired), the
    choke-rotation timer with any rate lists and optimistic picks, tracker answers with any peer lists *)
+(* a chooser answer in range (C13: the chooser's answers are eligible pieces, hence in range -- WfProofs.pick_ok_valid) *)
+Definition valid_pick (m : mgr) (pick : option N) : Prop :=
+  match pick with Some c => (N.to_nat c < length (m_plens m))%nat | None => True end.
+
 Inductive mreach : mgr -> Prop :=
-| mreach_init st plens : (forall i n, nthN st i <> Some (Reserved n)) -> mreach (mkmgr st [] [] 0 false plens)
+| mreach_init st plens : length st = length plens -> (forall i n, nthN st i <> Some (Reserved n)) -> mreach (mkmgr st [] [] 0 false plens)
 | mreach_add m a id : mreach m -> pget (m_peers m) a = None ->
     mreach (mkmgr (m_status m) (pset (m_peers m) a (new_peer id (length (m_plens m)))) (m_candidates m) (m_round m) (m_extracted m) (m_plens m))
-| mreach_step m c pick m' r bc sp : mreach m -> producible m c -> mstep m c pick = Ok (m', r, bc, sp) -> mreach m'
+| mreach_step m c pick m' r bc sp : mreach m -> producible m c -> valid_pick m pick -> mstep m c pick = Ok (m', r, bc, sp) -> mreach m'
 | mreach_rotation m rates new_opt m' fl : mreach m -> change_conn_state m rates new_opt = Ok (m', fl) -> mreach m'
 | mreach_tracker m peers : mreach m -> mreach (fst (handle_tracker_resp m peers))
 | mreach_accept m a : mreach m -> mreach (fst (accept_peer_with true m a)).
 
 Theorem reservation_invariant_reachable m : Peer_no_reserve_when_choked = true -> mreach m -> InvM m.
 Proof.
-  intros FR. induction 1 as [st plens H0|m a id _ IH Hf|m c pick m' r bc sp _ IH Hp Hs|m rates new_opt m' fl _ IH Hr|m peers _ IH|m a _ IH].
+  intros FR. induction 1 as [st plens _ H0|m a id _ IH Hf|m c pick m' r bc sp _ IH Hp _ Hs|m rates new_opt m' fl _ IH Hr|m peers _ IH|m a _ IH].
   - intros i n H. exfalso. exact (H0 i n H).
   - intros i n H. cbn [m_status m_peers] in *. rewrite cnt_pset_fresh by exact Hf.
     rewrite (assigned_choked i (new_peer id (length (m_plens m))) eq_refl). cbn [b2n]. specialize (IH i n H). lia.
